@@ -169,4 +169,6 @@ package client
 //@   ensures [signals-are-consumed] consumed <==> (callRes(Code, 0, 0) == 225 || callRes(Code, 0, 0) == 226 || callRes(Code, 0, 0) == 227 || callRes(Code, 0, 0) == 228 || callRes(Code, 0, 0) == 229)
 //@   ensures [pong-takes-its-continuation-out] callRes(Code, 0, 0) == 227 ==> callCount(LoadAndDelete) == 1 && notCalled(Load)
 //@   ensures [pong-runs-it-once] callRes(Code, 0, 0) == 227 && callRes(LoadAndDelete, 0, 1) ==> callCount(processReceivedMessage) == 1 && callArg(processReceivedMessage, 0, 0) == r
+//@   ensures [message-not-read-after-it-was-handed-over] called(processReceivedMessage) ==> callSeq(Code, callCount(Code) - 1) < callSeq(processReceivedMessage, 0) && notCalled(GetOptionUint32) && notCalled(HasOption)
+//@   ensures [signal-reported-by-its-code] callCount(handleTCPSignalReceived) <= 1 && (called(handleTCPSignalReceived) ==> callArg(handleTCPSignalReceived, 0, 1) == callRes(Code, 0, 0))
 //@   ensures [other-signals-leave-the-table-alone] callRes(Code, 0, 0) != 227 ==> notCalled(LoadAndDelete) && notCalled(Load) && notCalled(Delete) && notCalled(Store) && notCalled(processReceivedMessage)
